@@ -565,16 +565,24 @@ impl BufferTransformT for ASCII85Decode<'_> {
                 // crate's definition differs from PDF.
                 0x00 | 0x09 | 0x0A | 0x0C | 0x0D | 0x20 => continue,
 
-                // let the crate handle EOD and illegal characters.
+                // let the crate handle illegal characters.
                 c => stage.push(*c as char),
             }
         }
+        // The data ends with the EOD marker.
+        let body = match stage.strip_suffix("~>") {
+            Some(body) => body,
+            None => {
+                let err = ErrorKind::TransformError("ASCII85Decode: no EOD in input".to_string());
+                return Err(locate_value(err, loc.loc_start(), loc.loc_end()))
+            },
+        };
 
         let prev_hook = panic::take_hook();
 
         panic::set_hook(Box::new(|_info| {}));
 
-        let result = panic::catch_unwind(|| match ascii85::decode(&stage) {
+        let result = panic::catch_unwind(|| match ascii85::decode(body) {
             Ok(res) => Ok(ParseBuffer::new(res)),
             Err(e) => {
                 let err =
